@@ -5,6 +5,7 @@ import (
 	"sort"
 	"strings"
 	"testing"
+	"testing/synctest"
 	"time"
 
 	ml "github.com/hashicorp/memberlist"
@@ -101,7 +102,12 @@ func c05Heal(r *rng, id string) {
 				v := live[1+r.intn(len(live)-1)]
 				switch r.intn(3) {
 				case 0:
-					v.crash()
+					if r.chance(1, 2) {
+						// a frozen process: its listening socket still completes connections, nothing ever answers
+						v.hang()
+					} else {
+						v.crash()
+					}
 					departed[v.name] = true
 				case 1:
 					v.left = true
@@ -299,6 +305,9 @@ func TestC05(t *testing.T) {
 	forCases(6, 55, "x", func(i int, r *rng, id string) { lockStir("C05", r, id) })
 	// target selection for gossip, push/pull and probes at the same time: nobody may drop out of the list
 	forCases(12, 56, "y", func(i int, r *rng, id string) { stirLeg("C05", r, id) })
+	forCases(200, 57, "c", func(i int, r *rng, id string) {
+		synctest.Test(t, func(t *testing.T) { cursorLeg("C05", r, id) })
+	})
 	n := envInt("VERIF_N", 80)
 	if thorough() {
 		n = envInt("VERIF_N", 3000)
